@@ -6,6 +6,7 @@ use crate::engine::*;
 use crate::exec::step_named_on;
 use crate::spec::*;
 use pushr::push::random::CodeGenerator;
+use proptest::strategy::BoxedStrategy;
 use serde_json::{json, Value};
 
 fn journal(v: &Value) {
@@ -261,6 +262,148 @@ fn float_vector(ctx: &Ctx, draws: u64) -> SubReport {
     rep
 }
 
+/// One call of a generator function; histories of such calls run back to back on one thread.
+#[derive(Debug, Clone)]
+enum Call {
+    Int(i32, i32, i32),
+    Float(i32, f32, f32),
+    Bool(i32, f32),
+}
+
+fn call_json(c: &Call) -> Value {
+    match c {
+        Call::Int(n, a, b) => json!({"fn": "random_int_vector", "size": n, "min": a, "max": b}),
+        Call::Float(n, m, sd) => json!({"fn": "random_float_vector", "size": n, "mean": fjson(*m), "stddev": fjson(*sd)}),
+        Call::Bool(n, sp) => json!({"fn": "random_bool_vector", "size": n, "sparsity": fjson(*sp)}),
+    }
+}
+
+fn call_from_json(v: &Value) -> Option<Call> {
+    let n = v.get("size")?.as_i64()? as i32;
+    match v.get("fn")?.as_str()? {
+        "random_int_vector" => Some(Call::Int(n, v.get("min")?.as_i64()? as i32, v.get("max")?.as_i64()? as i32)),
+        "random_float_vector" => Some(Call::Float(n, fparse(v.get("mean")?)?, fparse(v.get("stddev")?)?)),
+        "random_bool_vector" => Some(Call::Bool(n, fparse(v.get("sparsity")?)?)),
+        _ => None,
+    }
+}
+
+/// the per-draw invariants of one call (the same ones the grids above state)
+fn check_call(c: &Call, pos: usize) -> Result<bool, Fail> {
+    match *c {
+        Call::Int(size, min, max) => {
+            let valid = size >= 0 && min < max;
+            match guarded(|| CodeGenerator::random_int_vector(size, min, max)) {
+                Err((l, m)) => Err(Fail::new(format!("C13/history/random_int_vector/panic@{}", l), format!("call {}: size {} [{}, {}): {}", pos, size, min, max, m))),
+                Ok(None) if valid => Err(Fail::new("C13/history/random_int_vector/none-for-valid-parameters", format!("call {}: size {} [{}, {})", pos, size, min, max))),
+                Ok(None) => Ok(false),
+                Ok(Some(_)) if !valid => Err(Fail::new("C13/history/random_int_vector/vector-for-invalid-parameters", format!("call {}: size {} [{}, {})", pos, size, min, max))),
+                Ok(Some(v)) => {
+                    if v.values.len() != size as usize {
+                        return Err(Fail::new("C13/history/random_int_vector/length", format!("call {}: size {} gave {}", pos, size, v.values.len())));
+                    }
+                    if let Some(x) = v.values.iter().find(|x| **x < min || **x >= max) {
+                        return Err(Fail::new("C13/history/random_int_vector/element-out-of-range", format!("call {}: element {} outside [{}, {})", pos, x, min, max)));
+                    }
+                    Ok(size >= 2)
+                }
+            }
+        }
+        Call::Float(size, mean, sd) => {
+            let valid = size >= 0 && sd >= 0.0 && sd.is_finite();
+            match guarded(|| CodeGenerator::random_float_vector(size, mean, sd)) {
+                Err((l, m)) => Err(Fail::new(format!("C13/history/random_float_vector/panic@{}", l), format!("call {}: size {} mean {} stddev {}: {}", pos, size, mean, sd, m))),
+                Ok(None) if valid => Err(Fail::new("C13/history/random_float_vector/none-for-valid-parameters", format!("call {}: size {} mean {} stddev {}", pos, size, mean, sd))),
+                Ok(None) => Ok(false),
+                Ok(Some(_)) if !valid => Err(Fail::new("C13/history/random_float_vector/vector-for-invalid-parameters", format!("call {}: size {} mean {} stddev {}", pos, size, mean, sd))),
+                Ok(Some(v)) => {
+                    if v.values.len() != size as usize {
+                        return Err(Fail::new("C13/history/random_float_vector/length", format!("call {}: size {} gave {}", pos, size, v.values.len())));
+                    }
+                    if sd == 0.0 && mean.is_finite() && v.values.iter().any(|x| *x != mean) {
+                        return Err(Fail::new("C13/history/random_float_vector/zero-deviation", format!("call {}: stddev 0 but elements differ from the mean {}", pos, mean)));
+                    }
+                    // 12 deviations: probability below 1e-30 per element for a normal law
+                    if sd > 0.0 && sd < 1e3 && mean.is_finite() && mean.abs() < 1e6 {
+                        if let Some(x) = v.values.iter().find(|x| !x.is_finite() || ((**x - mean).abs() as f64) > 12.0 * sd as f64 + 1e-3 * mean.abs() as f64) {
+                            return Err(Fail::new("C13/history/random_float_vector/element-far-from-mean", format!("call {}: element {} with mean {} stddev {}", pos, x, mean, sd)));
+                        }
+                    }
+                    Ok(size >= 2 && sd > 0.0)
+                }
+            }
+        }
+        Call::Bool(size, s) => {
+            let valid = size >= 0 && s >= 0.0 && s <= 1.0;
+            match guarded(|| CodeGenerator::random_bool_vector(size, s)) {
+                Err((l, m)) => Err(Fail::new(format!("C13/history/random_bool_vector/panic@{}", l), format!("call {}: size {} sparsity {}: {}", pos, size, s, m))),
+                Ok(None) if valid => Err(Fail::new("C13/history/random_bool_vector/none-for-valid-parameters", format!("call {}: size {} sparsity {}", pos, size, s))),
+                Ok(None) => Ok(false),
+                Ok(Some(_)) if !valid => Err(Fail::new("C13/history/random_bool_vector/vector-for-invalid-parameters", format!("call {}: size {} sparsity {}", pos, size, s))),
+                Ok(Some(v)) => {
+                    if v.values.len() != size as usize {
+                        return Err(Fail::new("C13/history/random_bool_vector/length", format!("call {}: size {} gave {}", pos, size, v.values.len())));
+                    }
+                    let (default, ok) = allowed_counts(size, s);
+                    let nondefault = v.values.iter().filter(|b| **b != default).count() as i64;
+                    if !ok.contains(&nondefault) {
+                        return Err(Fail::new("C13/history/random_bool_vector/true-count", format!("call {}: size {} sparsity {}: {} non-default bits, expected {:?}", pos, size, s, nondefault, ok)));
+                    }
+                    Ok(size >= 4 && s > 0.0 && s < 1.0)
+                }
+            }
+        }
+    }
+}
+
+fn history_strategy() -> BoxedStrategy<Vec<Call>> {
+    use proptest::prelude::*;
+    // small pools: consecutive calls share one bound / parameter and differ in the other
+    let ints = prop::sample::select(vec![-1000i32, -20, -10, -5, -1, 0, 1, 5, 10, 20, 1000, i32::MIN, i32::MIN + 1, i32::MAX - 1, i32::MAX]);
+    let sizes = prop::sample::select(vec![0i32, 1, 2, 3, 8, 17, 64, -1, -3]);
+    let means = prop::sample::select(vec![0.0f32, -3.5, 2.0, 100.0, 1e30, f32::NAN, f32::INFINITY]);
+    let sds = prop::sample::select(vec![0.0f32, 1.0, 0.5, 0.001, 10.0, -1.0, f32::NAN, f32::INFINITY]);
+    let sps = prop::sample::select(vec![0.0f32, 0.1, 0.25, 0.5, 0.75, 0.9, 1.0, 1.5, -0.5]);
+    let call = prop_oneof![
+        4 => (sizes.clone(), ints.clone(), ints).prop_map(|(n, a, b)| Call::Int(n, a, b)),
+        3 => (sizes.clone(), means, sds).prop_map(|(n, m, s)| Call::Float(n, m, s)),
+        2 => (sizes, sps).prop_map(|(n, s)| Call::Bool(n, s)),
+    ];
+    prop::collection::vec(call, 2..8).boxed()
+}
+
+fn judge_history(h: &Vec<Call>) -> CaseResult {
+    let mut nt = 0;
+    let mut hh = Fnv::new();
+    for (i, c) in h.iter().enumerate() {
+        journal(&json!({"kind": "c13", "fn": "history", "calls": h.iter().map(call_json).collect::<Vec<_>>()}));
+        if check_call(c, i)? {
+            nt += 1;
+        }
+        hh.u64(match c {
+            Call::Int(n, a, b) => (*n as u32 as u64) ^ ((*a as u32 as u64) << 20) ^ ((*b as u32 as u64) << 40) ^ 1,
+            Call::Float(n, m, s) => (*n as u32 as u64) ^ ((m.to_bits() as u64) << 20) ^ ((s.to_bits() as u64) << 30) ^ 2,
+            Call::Bool(n, s) => (*n as u32 as u64) ^ ((s.to_bits() as u64) << 24) ^ 3,
+        });
+    }
+    // same kind of call twice with one shared parameter
+    let shared = h.windows(2).any(|w| match (&w[0], &w[1]) {
+        (Call::Int(_, a, b), Call::Int(_, c, d)) => (a == c) != (b == d),
+        (Call::Float(_, a, b), Call::Float(_, c, d)) => (a.to_bits() == c.to_bits()) != (b.to_bits() == d.to_bits()),
+        (Call::Bool(n, _), Call::Bool(m, _)) => n == m,
+        _ => false,
+    });
+    Ok(CaseOut::new(nt >= 2, hh.0).class(if shared { "consecutive calls sharing one parameter" } else { "no shared parameter" }))
+}
+
+/// histories of generator calls on one thread: every call of the history satisfies the per-draw
+/// invariants whatever was drawn, and with which parameters, before it
+fn histories(ctx: &Ctx, n: u64) -> SubReport {
+    let mut rep = run_sharded(ctx, "call-histories", n, history_strategy, judge_history, |h: &Vec<Call>| json!({"kind": "c13", "fn": "history", "calls": h.iter().map(call_json).collect::<Vec<_>>()}));
+    rep.notes.push("2..7 calls of random_int_vector / random_float_vector / random_bool_vector back to back on one thread, parameters from small pools so that consecutive calls share one bound and differ in the other; the per-draw invariants hold for every call of the history (a float element is additionally required to lie within 12 deviations of the mean: probability < 1e-30 per element)".into());
+    rep
+}
+
 /// the RAND instructions through the registry: operands consumed, at most one item pushed,
 /// value inside the configured / requested bounds, nothing else touched
 fn instructions(ctx: &Ctx, draws: u64) -> SubReport {
@@ -443,6 +586,7 @@ pub fn run(ctx: &Ctx) -> PropReport {
     rep.push(int_vector(ctx, d));
     rep.push(float_vector(ctx, d));
     rep.push(instructions(ctx, d));
+    rep.push(histories(ctx, ctx.tier.pick(60_000u64, 1_000_000u64)));
     rep
 }
 
@@ -459,6 +603,13 @@ pub fn exec_journalled(v: &Value) -> Result<(), String> {
                 "random_int_vector" => {
                     let _ = CodeGenerator::random_int_vector(size, v.get("min").and_then(|x| x.as_i64()).unwrap_or(0) as i32, v.get("max").and_then(|x| x.as_i64()).unwrap_or(1) as i32);
                 }
+                "history" => {
+                    if let Some(a) = v.get("calls").and_then(|x| x.as_array()) {
+                        for c in a.iter().filter_map(call_from_json) {
+                            let _ = check_call(&c, 0);
+                        }
+                    }
+                }
                 "random_float_vector" => {
                     let _ = CodeGenerator::random_float_vector(size, v.get("mean").and_then(fparse).unwrap_or(0.0), v.get("stddev").and_then(fparse).unwrap_or(1.0));
                 }
@@ -472,6 +623,14 @@ pub fn exec_journalled(v: &Value) -> Result<(), String> {
 pub fn replay(ctx: &Ctx, _sub: &str, case: &Value) -> Result<(), Fail> {
     // unseedable: re-run the sub-check the case belongs to (quick size) and report its first violation
     let f = case.get("fn").and_then(|x| x.as_str()).unwrap_or("");
+    if f == "history" {
+        let h: Vec<Call> = case.get("calls").and_then(|x| x.as_array()).map(|a| a.iter().filter_map(call_from_json).collect()).unwrap_or_default();
+        // unseedable draws: the history is repeated; a history-dependent failure shows on the first pass
+        for _ in 0..200 {
+            judge_history(&h)?;
+        }
+        return Ok(());
+    }
     let r = match f {
         "random_bool_vector" => {
             if case.get("coverage").is_some() {
